@@ -83,6 +83,18 @@ fn build(root: &Path, tree: &Value) {
                 let c = std::ffi::CString::new(path.as_os_str().as_bytes()).unwrap();
                 assert_eq!(0, unsafe { libc::mkfifo(c.as_ptr(), 0o644) });
             }
+            "s" => {
+                // a unix socket bound at the path; the listener is dropped, the node stays
+                drop(std::os::unix::net::UnixListener::bind(&path).unwrap());
+            }
+            "b" => {
+                // a block-device node with no driver behind it; without mknod rights: a socket instead (the
+                // model state is the observer's dump, so the run stays judged)
+                let c = std::ffi::CString::new(path.as_os_str().as_bytes()).unwrap();
+                if unsafe { libc::mknod(c.as_ptr(), libc::S_IFBLK | 0o600, libc::makedev(241, 77)) } != 0 {
+                    drop(std::os::unix::net::UnixListener::bind(&path).unwrap());
+                }
+            }
             k => panic!("unknown kind {k}"),
         }
     }
@@ -110,6 +122,10 @@ fn dump(root: &Path) -> Value {
                 out.push(json!({"p": rel, "k": "f", "c": content(&std::fs::read(&path).unwrap())}));
             } else if std::os::unix::fs::FileTypeExt::is_fifo(&ft) {
                 out.push(json!({"p": rel, "k": "p"}));
+            } else if std::os::unix::fs::FileTypeExt::is_socket(&ft) {
+                out.push(json!({"p": rel, "k": "s"}));
+            } else if std::os::unix::fs::FileTypeExt::is_block_device(&ft) {
+                out.push(json!({"p": rel, "k": "b"}));
             } else {
                 out.push(json!({"p": rel, "k": "?"}));
             }
@@ -152,6 +168,8 @@ fn kind_of(ft: tiny_std::fs::FileType) -> &'static str {
         F::RegularFile => "f",
         F::Symlink => "l",
         F::Fifo => "p",
+        F::Socket => "s",
+        F::BlockDevice => "b",
         _ => "?",
     }
 }
